@@ -21,6 +21,29 @@ Proof.
   revert HI. rewrite Hs at 1 2. intros HI. apply apply_writes_field; assumption.
 Qed.
 
+Lemma apply_writes_nth_n : forall ws buf k o bs n,
+  n = length bs -> nth_error ws k = Some (o, bs) -> Forall (inb (length buf)) ws ->
+  Forall (away o n) (skipn (S k) ws) ->
+  slice o n (apply_writes ws buf) = bs.
+Proof. intros. subst n. eapply apply_writes_nth; eassumption. Qed.
+
+Lemma tuple4_inv : forall {A B C D} (a a' : A) (b b' : B) (c c' : C) (d d' : D),
+  (a, b, c, d) = (a', b', c', d') -> a = a' /\ b = b' /\ c = c' /\ d = d'.
+Proof. intros. inversion H. auto. Qed.
+Lemma tuple3_inv : forall {A B C} (a a' : A) (b b' : B) (c c' : C),
+  (a, b, c) = (a', b', c') -> a = a' /\ b = b' /\ c = c'.
+Proof. intros. inversion H. auto. Qed.
+
+Ltac st_contra H :=
+  unfold ST_OK, ST_WARN, ST_FAILED, ST_FATAL, ARCHIVE_OK, ARCHIVE_WARN, ARCHIVE_FAILED, ARCHIVE_FATAL in H; lia.
+Ltac bad4 H := apply tuple4_inv in H; let H2 := fresh in destruct H as [_ [H2 _]]; st_contra H2.
+Ltac bad3 H := apply tuple3_inv in H; let H2 := fresh in destruct H as [H2 _]; st_contra H2.
+
+Lemma firstn_app_exact : forall (l1 l2 : list Z) n, length l1 = n -> firstn n (l1 ++ l2) = l1.
+Proof.
+  intros l1 l2 n H. subst n. rewrite firstn_app. rewrite Nat.sub_diag. rewrite firstn_all. cbn [firstn]. apply app_nil_r.
+Qed.
+
 Ltac fcons := repeat match goal with
   | |- Forall _ (_ :: _) => apply Forall_cons
   | |- Forall _ [] => apply Forall_nil
@@ -47,10 +70,9 @@ Qed.
 
 Ltac odc_field k :=
   unfold odc_block;
-  match goal with |- slice ?o ?n _ = ?bs =>
-    replace n with (length bs) by (rewrite ?odc_format_octal_length, ?odc_filesize_length; reflexivity) end;
-  apply (apply_writes_nth _ _ k);
-  [ reflexivity
+  apply (apply_writes_nth_n _ _ k);
+  [ rewrite ?odc_format_octal_length, ?odc_filesize_length; reflexivity
+  | reflexivity
   | rewrite zeros_length; apply odc_fields_inb
   | unfold odc_fields; cbn [skipn]; fcons; try leafo;
     try (unfold away; cbn [fst snd]; rewrite ?odc_filesize_length; leafo) ].
@@ -115,12 +137,11 @@ Theorem odc_ok_filesize : forall st e st' out rem,
 Proof.
   intros st e st' out rem H. unfold odc_write_header in H.
   destruct (synthesize_ino st e) as [st1 ino].
-  destruct (ino <? 0)%Z; [inversion H|].
-  destruct (262143 <? ino)%Z; [inversion H|].
-  destruct (negb (fst (odc_filesize e) =? 0)%Z) eqn:E; [inversion H|].
-  inversion H; subst. clear H.
-  rewrite firstn_app. rewrite odc_block_length. replace (76 - 76) with 0 by lia. cbn [firstn]. rewrite app_nil_r.
-  rewrite firstn_all2 by (rewrite odc_block_length; lia).
+  destruct (ino <? 0)%Z; [bad4 H|].
+  destruct (262143 <? ino)%Z; [bad4 H|].
+  destruct (negb (fst (odc_filesize e) =? 0)%Z) eqn:E; [bad4 H|].
+  apply tuple4_inv in H. destruct H as [_ [_ [Hout _]]]. subst out.
+  rewrite firstn_app_exact by apply odc_block_length.
   rewrite odc_slice_filesize.
   apply negb_false_iff in E. apply Z.eqb_eq in E.
   unfold odc_filesize in *. destruct (0 <? length (sym_of e)).
@@ -153,10 +174,9 @@ Qed.
 
 Ltac newc_field k :=
   unfold newc_block;
-  match goal with |- slice ?o ?n _ = ?bs =>
-    replace n with (length bs) by (rewrite ?newc_format_hex_length, ?newc_filesize_length; reflexivity) end;
-  apply (apply_writes_nth _ _ k);
-  [ reflexivity
+  apply (apply_writes_nth_n _ _ k);
+  [ rewrite ?newc_format_hex_length, ?newc_filesize_length; reflexivity
+  | reflexivity
   | rewrite zeros_length; apply newc_fields_inb
   | unfold newc_fields; cbn [skipn]; fcons; try leafn;
     try (unfold away; cbn [fst snd]; rewrite ?newc_filesize_length; leafn) ].
@@ -216,18 +236,16 @@ Proof.
 Qed.
 
 Theorem newc_ok_filesize : forall e ret out rem,
-  newc_write_header e = (ret, out, rem) -> ST_WARN <= ret ->
+  newc_write_header e = (ret, out, rem) -> (ST_WARN <= ret)%Z ->
   cpio_atol16 (slice NEWC_c_filesize_offset NEWC_c_filesize_size (firstn 110 out))
   = if (0 <? length (sym_of e)) then lenZ (sym_of e) else body_size e.
 Proof.
   intros e ret out rem H Hret. unfold newc_write_header in H. cbv zeta in H.
   destruct (negb (fst (newc_filesize e) =? 0)%Z) eqn:E.
-  - inversion H; subst. unfold ST_WARN, ST_FAILED, ARCHIVE_WARN, ARCHIVE_FAILED in Hret. lia.
+  - apply tuple3_inv in H. destruct H as [H1 _]. subst ret. st_contra Hret.
   - assert (Hout : firstn 110 out = newc_block e).
-    { inversion H; subst. clear H.
-      destruct (0 <? length (sym_of e)); repeat rewrite <- app_assoc;
-        rewrite firstn_app; rewrite newc_block_length; replace (110 - 110) with 0 by lia; cbn [firstn];
-        rewrite app_nil_r; apply firstn_all2; rewrite newc_block_length; lia. }
+    { apply tuple3_inv in H. destruct H as [_ [Hout _]]. subst out.
+      destruct (0 <? length (sym_of e)); repeat rewrite <- app_assoc; apply firstn_app_exact; apply newc_block_length. }
     rewrite Hout. rewrite newc_slice_filesize.
     apply negb_false_iff in E. apply Z.eqb_eq in E.
     unfold newc_filesize in *. destruct (0 <? length (sym_of e)).
@@ -239,13 +257,13 @@ Qed.
 
 (* the only numeric overflow newc reports besides the file size: an inode number above 2^32-1 gives ARCHIVE_WARN *)
 Theorem newc_ok_ino : forall e out rem,
-  newc_write_header e = (ST_OK, out, rem) -> 0 <= e_ino e ->
+  newc_write_header e = (ST_OK, out, rem) -> (0 <= e_ino e)%Z ->
   cpio_atol16 (slice NEWC_c_ino_offset NEWC_c_ino_size (newc_block e)) = e_ino e.
 Proof.
   intros e out rem H Hino. unfold newc_write_header in H. cbv zeta in H.
-  destruct (negb (fst (newc_filesize e) =? 0)%Z); [inversion H; unfold ST_FAILED, ST_OK, ARCHIVE_FAILED, ARCHIVE_OK in *; lia|].
-  inversion H as [[Hret Hout Hrem]]. unfold pick in Hret.
-  destruct (4294967295 <? e_ino e)%Z eqn:E; [unfold ST_WARN, ST_OK, ARCHIVE_WARN, ARCHIVE_OK in Hret; lia|].
+  destruct (negb (fst (newc_filesize e) =? 0)%Z); [bad3 H|].
+  apply tuple3_inv in H. destruct H as [Hret _]. unfold pick in Hret.
+  destruct (4294967295 <? e_ino e)%Z eqn:E; [st_contra Hret|].
   apply Z.ltb_ge in E. rewrite newc_slice_ino. rewrite newc_field_decodes by (unfold NEWC_c_ino_size; lia).
   assert (Hl : Z.land (e_ino e) 4294967295 = e_ino e).
   { change 4294967295%Z with (Z.ones 32). rewrite Z.land_ones by lia. apply Z.mod_small. change (2 ^ 32)%Z with 4294967296%Z. lia. }
@@ -276,31 +294,29 @@ Proof. unfold bin_block. cbv zeta. destruct (is_dev e); cbn [app slice skipn fir
 Lemma bin_slice_namesize : le2 (slice R_bin_namesize_offset R_bin_namesize_size (bin_block ino e)) = (pathlength_of e mod 65536)%Z.
 Proof. unfold bin_block. cbv zeta. destruct (is_dev e); cbn [app slice skipn firstn bin16 bin32 R_bin_namesize_offset R_bin_namesize_size]; apply bin16_roundtrip. Qed.
 Lemma bin_slice_filesize : le4 (slice R_bin_filesize_offset R_bin_filesize_size (bin_block ino e))
-  = ((if (0 <? length (sym_of e)) then lenZ (sym_of e) else body_size e) mod 4294967296)%Z.
+  = ((if (0 <? length (sym_of e))%nat then lenZ (sym_of e) else body_size e) mod 4294967296)%Z.
 Proof. unfold bin_block. cbv zeta. destruct (is_dev e); cbn [app slice skipn firstn bin16 bin32 R_bin_filesize_offset R_bin_filesize_size]; apply bin32_roundtrip. Qed.
 End BinBlock.
 
 (* status OK of the binary writer means the file size is exact (it is the only range the writer checks) *)
 Theorem bin_ok_filesize : forall pwb st e st' out rem,
-  bin_write_header pwb st e = (st', ST_OK, out, rem) -> 0 <= body_size e -> (lenZ (sym_of e) < 4294967296)%Z ->
+  bin_write_header pwb st e = (st', ST_OK, out, rem) -> (0 <= body_size e)%Z -> (lenZ (sym_of e) < 4294967296)%Z ->
   exists ino, firstn 26 out = bin_block ino e /\
   le4 (slice R_bin_filesize_offset R_bin_filesize_size (bin_block ino e))
   = if (0 <? length (sym_of e)) then lenZ (sym_of e) else body_size e.
 Proof.
   intros pwb st e st' out rem H Hb Hs. unfold bin_write_header in H. cbv zeta in H.
   destruct (synthesize_ino st e) as [st1 ino].
-  destruct (ino <? 0)%Z; [inversion H|].
-  destruct (32767 <? ino)%Z; [inversion H|].
-  destruct ((Z.land (u16 (e_mode e)) IFMT =? IFSOCK)%Z || (Z.land (u16 (e_mode e)) IFMT =? IFIFO)%Z); [inversion H|].
-  destruct (pwb && (Z.land (u16 (e_mode e)) IFMT =? IFLNK)%Z); [inversion H|].
-  destruct ((0 <? length (sym_of e)) && pwb); [inversion H|].
-  destruct (negb (0 <? length (sym_of e)) && pwb && (16777215 <? body_size e)%Z); [inversion H|].
-  destruct (negb (0 <? length (sym_of e)) && (2147483647 <? body_size e)%Z) eqn:E; [inversion H|].
+  destruct (ino <? 0)%Z; [bad4 H|].
+  destruct (32767 <? ino)%Z; [bad4 H|].
+  destruct ((Z.land (u16 (e_mode e)) IFMT =? IFSOCK)%Z || (Z.land (u16 (e_mode e)) IFMT =? IFIFO)%Z); [bad4 H|].
+  destruct (pwb && (Z.land (u16 (e_mode e)) IFMT =? IFLNK)%Z); [bad4 H|].
+  destruct ((0 <? length (sym_of e)) && pwb); [bad4 H|].
+  destruct (negb (0 <? length (sym_of e)) && pwb && (16777215 <? body_size e)%Z); [bad4 H|].
+  destruct (negb (0 <? length (sym_of e)) && (2147483647 <? body_size e)%Z) eqn:E; [bad4 H|].
   exists ino. split.
-  - inversion H; subst. clear H.
-    destruct (0 <? length (sym_of e)); repeat rewrite <- app_assoc;
-      rewrite firstn_app; rewrite bin_block_length; replace (26 - 26) with 0 by lia; cbn [firstn];
-      rewrite app_nil_r; apply firstn_all2; rewrite bin_block_length; lia.
+  - apply tuple4_inv in H. destruct H as [_ [_ [Hout _]]]. subst out.
+    destruct (0 <? length (sym_of e)); repeat rewrite <- app_assoc; apply firstn_app_exact; apply bin_block_length.
   - rewrite bin_slice_filesize. destruct (0 <? length (sym_of e)) eqn:El.
     + apply Z.mod_small. unfold lenZ in *. lia.
     + cbn [negb andb] in E. apply Z.ltb_ge in E. apply Z.mod_small. lia.
